@@ -1045,7 +1045,9 @@ func (f *formatter) ExprArray(n *ast.ExprArray) {
 func (f *formatter) ExprArrayDimFetch(n *ast.ExprArrayDimFetch) {
 	n.Var.Accept(f)
 	n.OpenBracketTkn = f.newToken('[', []byte("["))
-	n.Dim.Accept(f)
+	if n.Dim != nil {
+		n.Dim.Accept(f)
+	}
 	n.CloseBracketTkn = f.newToken(']', []byte("]"))
 }
 
